@@ -1,8 +1,8 @@
 //! dltverif — property-based testing / fuzzing machinery for the dlt-core properties C01..C19.
 pub mod evalserver;
 pub mod model;
-pub mod refcodec;
 pub mod oracle;
+pub mod refcodec;
 pub mod util;
 pub mod verdict;
 
